@@ -652,10 +652,20 @@ class Options:
         # Compile one of the glob patterns to a regex so that '.*' can
         # match *zero or more* module sections. This means we compile
         # '.*' into '(\..*)?'.
+        # A leading '*' likewise becomes '(.*\.)?' so that '*.bar' also matches 'bar'.
         parts = s.split(".")
-        expr = re.escape(parts[0]) if parts[0] != "*" else ".*"
+        if parts[0] == "*" and len(parts) > 1:
+            expr = r"(.*\.)?"
+            need_dot = False
+        else:
+            expr = re.escape(parts[0]) if parts[0] != "*" else ".*"
+            need_dot = True
         for part in parts[1:]:
-            expr += re.escape("." + part) if part != "*" else r"(\..*)?"
+            if part == "*":
+                expr += r"(\..*)?"
+            else:
+                expr += re.escape("." + part if need_dot else part)
+                need_dot = True
         return re.compile(expr + "\\Z")
 
     def select_options_affecting_cache(self) -> tuple[str, list[object]]:
